@@ -103,6 +103,9 @@ LINES_AS = [
     ["lit:route-target export ", "as", "lit::", "as"],
     ["lit: neighbor ", "a4", "lit: local-as ", "as", "lit:, remote-as ", "as", "lit:;"],
     ["lit:! peers (AS", "as", "lit:) and [", "as", "lit:]"],
+    # column-aligned and tab-separated rows holding an address and an AS number
+    ["lit:\tneighbor ", "a4", "lit:\tremote-as ", "as"],
+    ["a4", "lit:    4 ", "as", "lit:   12345   67  0 0 0 1d02h   5"],
 ]
 LINES_W = [
     ["lit:hostname ", "w", "lit:-r1"],
